@@ -122,17 +122,19 @@ Proof. reflexivity. Qed.
 Ltac same_solver :=
   repeat first [ assumption | apply same_refl | apply same_log | (apply same_set; [reflexivity |]) ].
 
-Ltac note_facts s' E :=
+(* facts [get fld _ = v] about scratch fields (stepPC, StepInfo.Mode) are carried along the abstracted states *)
+Ltac note_fact fld s' E :=
   first
-  [ lazymatch E with set f_stepPC ?v _ => assert (get f_stepPC s' = v) by (subst s'; apply get_set_this) end
+  [ lazymatch E with set fld ?v _ => assert (get fld s' = v) by (subst s'; apply get_set_this) end
   | match goal with
-    | H : get f_stepPC ?x = ?v |- _ =>
+    | H : get fld ?x = ?v |- _ =>
         lazymatch E with context [x] =>
-          assert (get f_stepPC s' = v)
+          assert (get fld s' = v)
             by (subst s'; repeat first [ rewrite get_log | rewrite get_set_other by reflexivity ]; exact H)
         end
     end
   | idtac ].
+Ltac note_facts s' E := note_fact f_stepPC s' E; note_fact f_StepInfo_Mode s' E.
 
 Ltac head_let s :=
   lazymatch goal with
@@ -188,6 +190,39 @@ Proof.
     match goal with |- context [log ?e ?x] => abs_state s (log e x) end.
     repeat head_let s.
     mode_chain 8.
+    repeat first [ head_let s | match goal with |- ?Q' (if ?c then _ else _) => destruct c end ];
+    apply HQ; assumption.
+Qed.
+
+Lemma Step_acc4 : forall s op (Q : res (word * bool) -> Prop),
+  no_int s -> 0 <= get f_RK s < 256 -> 0 <= get f_PC s < 65536 ->
+  mem s (get f_RK s * 65536 + get f_PC s) mod 256 = op ->
+  tbl_mode op = 4 ->
+  (forall s1, same s s1 -> get f_stepPC s1 = tbl_size op -> get f_StepInfo_Mode s1 = 4 ->
+     Q (bind (tbl_proc op s1) (fun _ s2 => finish s2))) ->
+  Q (Step s).
+Proof.
+  intros s op Q [Hi2 Hi3] Hk Hpc Hop Hmode HQ.
+  assert (H2 : w_eqb (get f_Interrupt s) 2 = false) by (unfold w_eqb; apply Z.eqb_neq; assumption).
+  assert (H3 : w_eqb (get f_Interrupt s) 3 = false) by (unfold w_eqb; apply Z.eqb_neq; assumption).
+  cbv beta delta [Step].
+  head_let s. head_let s. rewrite H2, H3.
+  head_let s.
+  cbv beta delta [cb_pc]. rewrite bind_Ok. cbv beta.
+  match goal with |- context [onpc ?a ?b] => destruct (onpc a b) end.
+  - match goal with |- context [log ?e ?x] => abs_state s (log e x) end.
+    head_let s. head_let s. fetch_op s Hk Hpc Hop.
+    head_let s. rewrite Hmode. head_let s.
+    match goal with |- context [log ?e ?x] => abs_state s (log e x) end.
+    repeat head_let s.
+    mode_chain 4.
+    repeat first [ head_let s | match goal with |- ?Q' (if ?c then _ else _) => destruct c end ];
+    apply HQ; assumption.
+  - head_let s. head_let s. fetch_op s Hk Hpc Hop.
+    head_let s. rewrite Hmode. head_let s.
+    match goal with |- context [log ?e ?x] => abs_state s (log e x) end.
+    repeat head_let s.
+    mode_chain 4.
     repeat first [ head_let s | match goal with |- ?Q' (if ?c then _ else _) => destruct c end ];
     apply HQ; assumption.
 Qed.
@@ -416,7 +451,7 @@ Ltac by_x s W s1 Hs1 :=
   let Hx := fresh "Hx" in destruct (wf_X s W) as [Hx | Hx]; rewrite ?Hx; lits.
 
 Ltac spec_eval :=
-  lazy beta iota zeta delta [exec set_nz with_A with_X with_Y with_S with_D with_DBR with_PBR with_PC
+  lazy beta iota zeta delta [exec rmw f_inc f_dec f_asl f_lsr f_rol f_ror oploc set_nz with_A with_X with_Y with_S with_D with_DBR with_PBR with_PC
          with_N with_V with_M with_Xf with_Df with_I with_Z with_C with_E with_Stp xr yr xw mw acc with_acc abs
          rA rX rY rS rD rDBR rPBR rPC fN fV fM fX fD fI fZ fC rE rStp fst snd wmod wsgn ISA.length
          Spec816.step_state Spec816.step_mem].
@@ -492,3 +527,21 @@ Ltac reg_only op routine mn md :=
     by_flags s W s1 Hs1 HE; pose_ranges s W; run_routine2 s s1 Hs1; reg_op2 s W Hop s1 Hs1 Hsz mn md
   end.
 
+
+(* accumulator-mode instructions (Go mode 4): the routine first tests StepInfo.Mode *)
+Ltac start_acc op :=
+  let s := fresh "s" in let W := fresh "W" in let HE := fresh "HE" in let Hni := fresh "Hni" in let Hop := fresh "Hop" in
+  intros s W HE Hni Hop;
+  apply (Step_acc4 s op); [ exact Hni | apply W | apply W | exact Hop | reflexivity | ];
+  let s1 := fresh "s1" in let Hs1 := fresh "Hs1" in let Hsz := fresh "Hsz" in let Hmd := fresh "Hmd" in
+  intros s1 Hs1 Hsz Hmd;
+  let p := eval cbv beta iota delta [tbl_proc] in (tbl_proc op) in change (tbl_proc op) with p;
+  let z := eval cbv beta iota delta [tbl_size] in (tbl_size op) in change (tbl_size op) with z in Hsz.
+
+Ltac reg_only_acc op routine mn :=
+  start_acc op; cbv beta zeta delta [routine b2z];
+  match goal with W : wf ?s, HE : get f_E ?s = 0, Hop : opcode_at ?s = _, Hs1 : same ?s ?s1, Hsz : get f_stepPC ?s1 = _,
+                  Hmd : get f_StepInfo_Mode ?s1 = 4 |- _ =>
+    rewrite Hmd; change (w_eqb 4 4) with true; cbv iota;
+    by_flags s W s1 Hs1 HE; pose_ranges s W; run_routine2 s s1 Hs1; reg_op2 s W Hop s1 Hs1 Hsz mn Acc
+  end.
